@@ -155,6 +155,138 @@ CASES = [
     ("C07", "join_error_class", H, "consumer_group.go", "newSession",
      "\tcase ErrNoError:\n\t\tc.memberID = join.MemberId\n\tcase ErrUnknownMemberId, ErrIllegalGeneration: // reset member ID and retry immediately\n\t\tc.memberID = \"\"\n\t\treturn c.newSession(ctx, topics, handler, retries)\n",
      "\tcase ErrIllegalGeneration, ErrUnknownMemberId:\n\t\tc.memberID = \"\"\n\t\treturn c.newSession(ctx, topics, handler, retries)\n\tcase ErrNoError:\n\t\tc.memberID = join.MemberId\n", "reordered clauses and constants"),
+    # ======================================================================================= second wave
+    # ---------------------------------------------------------------- C17
+    ("C17", "partition_source", S, "async_producer.go", "partitionMessage", "requiresConsistency = ep.MessageRequiresConsistency(msg)", "requiresConsistency = !ep.MessageRequiresConsistency(msg)", "per-message consistency negated"),
+    ("C17", "partition_source", S, "async_producer.go", "partitionMessage", "requiresConsistency = tp.partitioner.RequiresConsistency()", "requiresConsistency = true", "constant instead of the partitioner's answer"),
+    ("C17", "partition_source", S, "async_producer.go", "partitionMessage", "partitions, err = tp.parent.client.Partitions(msg.Topic)\n\t\t} else {\n\t\t\tpartitions, err = tp.parent.client.WritablePartitions(msg.Topic)", "partitions, err = tp.parent.client.WritablePartitions(msg.Topic)\n\t\t} else {\n\t\t\tpartitions, err = tp.parent.client.Partitions(msg.Topic)", "all / writable partitions swapped"),
+    ("C17", "partition_source", H, "async_producer.go", "partitionMessage", "tp.partitioner.(DynamicConsistencyPartitioner); ok {", "tp.partitioner.(DynamicConsistencyPartitioner); ok == true {", "ok written as ok == true"),
+    ("C17", "partition_pick", S, "async_producer.go", "partitionMessage", "choice >= numPartitions", "choice > numPartitions", "range check off by one"),
+    ("C17", "partition_pick", S, "async_producer.go", "partitionMessage", "if numPartitions == 0 {", "if numPartitions < 0 {", "empty partition list accepted"),
+    ("C17", "partition_pick", S, "async_producer.go", "partitionMessage", "return ErrInvalidPartition", "return ErrLeaderNotAvailable", "other error"),
+    ("C17", "partition_pick", H, "async_producer.go", "partitionMessage", "choice < 0 || choice >= numPartitions", "choice >= numPartitions || choice < 0", "swapped disjuncts"),
+    ("C17", "hash_partition_calls", S, "partitioner.go", "hashPartitioner) Partition", "\tp.hasher.Reset()\n", "", "hasher not reset"),
+    ("C17", "hash_partition_calls", S, "partitioner.go", "hashPartitioner) Partition", "\tp.hasher.Reset()\n\t_, err = p.hasher.Write(bytes)\n", "\t_, err = p.hasher.Write(bytes)\n\tp.hasher.Reset()\n", "reset after write"),
+    ("C17", "hash_partition_calls", H, "partitioner.go", "hashPartitioner) Partition", "\t_, err = p.hasher.Write(bytes)\n\tif err != nil {", "\t_, err = p.hasher.Write(bytes)\n\tif nil != err {", "mirrored nil test"),
+    # ---------------------------------------------------------------- C01
+    ("C01", "needs_retry", S, "async_producer.go", "needsRetry", "if bp.closing != nil {", "if bp.closing == nil {", "flipped nil test"),
+    ("C01", "needs_retry", S, "async_producer.go", "needsRetry", "return bp.closing", "return nil", "closing error dropped"),
+    ("C01", "needs_retry", H, "async_producer.go", "needsRetry", "\tif bp.closing != nil {\n\t\treturn bp.closing\n\t}\n\n\treturn bp.currentRetries[msg.Topic][msg.Partition]", "\tif bp.closing == nil {\n\t\treturn bp.currentRetries[msg.Topic][msg.Partition]\n\t}\n\treturn bp.closing", "negated test with swapped returns"),
+    ("C01", "wait_for_space_recheck", S, "async_producer.go", "waitForSpace", "!bp.buffer.wouldOverflow(msg) && !forceRollover", "!bp.buffer.wouldOverflow(msg) || !forceRollover", "&& to ||"),
+    ("C01", "wait_for_space_recheck", S, "async_producer.go", "waitForSpace", "\t\t\t\treturn reason\n", "\t\t\t\treturn nil\n", "retry reason dropped"),
+    ("C01", "wait_for_space_recheck", H, "async_producer.go", "waitForSpace", "!bp.buffer.wouldOverflow(msg) && !forceRollover", "!forceRollover && !bp.buffer.wouldOverflow(msg)", "swapped conjuncts"),
+    ("C01", "bp_input_class", S, "async_producer.go", "brokerProducer) run", "if bp.closing == nil && msg.flags&fin == fin {", "if msg.flags&fin == fin {", "dropped closing guard"),
+    ("C01", "bp_input_class", S, "async_producer.go", "brokerProducer) run", "bp.parent.retryMessage(msg, ErrShuttingDown)", "bp.parent.retryMessage(msg, ErrOutOfBrokers)", "other error"),
+    ("C01", "bp_input_class", S, "async_producer.go", "brokerProducer) run", "\t\t\t\tbp.currentRetries[msg.Topic][msg.Partition] = nil\n", "", "syn no longer clears the retry state"),
+    ("C01", "bp_input_class", H, "async_producer.go", "brokerProducer) run", "if bp.closing == nil && msg.flags&fin == fin {", "if msg.flags&fin == fin && bp.closing == nil {", "swapped conjuncts"),
+    ("C01", "pp_level_class", S, "async_producer.go", "partitionProducer) dispatch", "} else if pp.highWatermark > 0 {", "} else if pp.highWatermark >= 0 {", "comparison > to >="),
+    ("C01", "pp_level_class", S, "async_producer.go", "partitionProducer) dispatch", "if msg.retries < pp.highWatermark {", "if msg.retries <= pp.highWatermark {", "comparison < to <="),
+    ("C01", "pp_level_class", S, "async_producer.go", "partitionProducer) dispatch", "\t\t\t\tpp.flushRetryBuffers()\n", "", "retry buffers not flushed"),
+    ("C01", "pp_level_class", H, "async_producer.go", "partitionProducer) dispatch", "if msg.retries < pp.highWatermark {", "if pp.highWatermark > msg.retries {", "mirrored comparison"),
+    ("C01", "pp_stamp_sequence", S, "async_producer.go", "partitionProducer) dispatch", "pp.parent.conf.Producer.Idempotent && msg.retries == 0 && msg.flags == 0", "pp.parent.conf.Producer.Idempotent && msg.flags == 0", "retried messages stamped again"),
+    ("C01", "pp_stamp_sequence", S, "async_producer.go", "partitionProducer) dispatch", "\t\t\tmsg.hasSequence = true\n", "", "dropped assignment"),
+    ("C01", "pp_stamp_sequence", H, "async_producer.go", "partitionProducer) dispatch", "\t\t\tmsg.sequenceNumber, msg.producerEpoch = pp.parent.txnmgr.getAndIncrementSequenceNumber(msg.Topic, msg.Partition)\n\t\t\tmsg.hasSequence = true\n", "\t\t\tmsg.hasSequence = true\n\t\t\tmsg.sequenceNumber, msg.producerEpoch = pp.parent.txnmgr.getAndIncrementSequenceNumber(msg.Topic, msg.Partition)\n", "independent assignments reordered"),
+    ("C01", "get_and_increment_sequence_number", S, "async_producer.go", "getAndIncrementSequenceNumber", "\"%s-%d\"", "\"%s_%d\"", "map key format changed"),
+    ("C01", "get_and_increment_sequence_number", S, "async_producer.go", "getAndIncrementSequenceNumber", "t.sequenceNumbers[key] = sequence + 1", "t.sequenceNumbers[key] = sequence + 2", "changed increment"),
+    ("C01", "get_and_increment_sequence_number", S, "async_producer.go", "getAndIncrementSequenceNumber", "return sequence, t.producerEpoch", "return sequence + 1, t.producerEpoch", "returns the incremented number"),
+    ("C01", "get_and_increment_sequence_number", H, "async_producer.go", "getAndIncrementSequenceNumber", "\tt.sequenceNumbers[key] = sequence + 1\n", "\tnext := sequence + 1\n\tt.sequenceNumbers[key] = next\n", "hoisted local"),
+    ("C01", "bump_epoch", S, "async_producer.go", "bumpEpoch", "t.sequenceNumbers[k] = 0", "t.sequenceNumbers[k] = 1", "changed constant"),
+    ("C01", "bump_epoch", S, "async_producer.go", "bumpEpoch", "\tt.producerEpoch++\n", "", "epoch not bumped"),
+    ("C01", "bump_epoch", H, "async_producer.go", "bumpEpoch", "t.producerEpoch++", "t.producerEpoch += 1", "++ written as += 1"),
+    # ---------------------------------------------------------------- C16
+    ("C16", "arm_flush_timer", S, "async_producer.go", "brokerProducer) run", "bp.parent.conf.Producer.Flush.Frequency > 0 && bp.timer == nil", "bp.parent.conf.Producer.Flush.Frequency >= 0 && bp.timer == nil", "comparison > to >="),
+    ("C16", "arm_flush_timer", S, "async_producer.go", "brokerProducer) run", "bp.timer = time.After(bp.parent.conf.Producer.Flush.Frequency)", "bp.timerFired = true", "fires instead of arming"),
+    ("C16", "arm_flush_timer", H, "async_producer.go", "brokerProducer) run", "if bp.parent.conf.Producer.Flush.Frequency > 0 && bp.timer == nil {", "if (bp.parent.conf.Producer.Flush.Frequency > 0) && (bp.timer == nil) { // arm", "parentheses and a comment"),
+    ("C16", "enable_output", S, "async_producer.go", "brokerProducer) run", "\t\t\toutput = bp.output\n\t\t} else {\n\t\t\toutput = nil\n", "\t\t\toutput = nil\n\t\t} else {\n\t\t\toutput = bp.output\n", "swapped branches"),
+    ("C16", "enable_output", S, "async_producer.go", "brokerProducer) run", "if bp.timerFired || bp.buffer.readyToFlush() {", "if bp.timerFired && bp.buffer.readyToFlush() {", "|| to &&"),
+    ("C16", "enable_output", H, "async_producer.go", "brokerProducer) run", "\t\t\toutput = nil\n", "\t\t\toutput = (nil) // nothing to flush\n", "parentheses and a comment"),
+    ("C16", "roll_over", S, "async_producer.go", "rollOver", "bp.timerFired = false", "bp.timerFired = true", "changed constant"),
+    ("C16", "roll_over", S, "async_producer.go", "rollOver", "\tbp.timer = nil\n", "", "timer not cleared"),
+    ("C16", "roll_over", H, "async_producer.go", "rollOver", "\tbp.timer = nil\n\tbp.timerFired = false\n", "\tbp.timerFired = false\n\tbp.timer = nil\n", "independent assignments reordered"),
+    # ---------------------------------------------------------------- C05
+    ("C05", "is_at_least", S, "utils.go", "IsAtLeast", "v.version[i] > other.version[i]", "v.version[i] >= other.version[i]", "comparison > to >="),
+    ("C05", "is_at_least", S, "utils.go", "IsAtLeast", "\t}\n\treturn true\n", "\t}\n\treturn false\n", "equal versions not at least"),
+    ("C05", "is_at_least", H, "utils.go", "IsAtLeast", "} else if v.version[i] < other.version[i] {", "} else if other.version[i] > v.version[i] {", "mirrored comparison"),
+    ("C05", "validate_idempotent", S, "config.go", "Config) Validate", "if c.Producer.Retry.Max == 0 {", "if c.Producer.Retry.Max < 0 {", "Retry.Max = 0 accepted"),
+    ("C05", "validate_idempotent", S, "config.go", "Config) Validate", "if c.Net.MaxOpenRequests > 1 {", "if c.Net.MaxOpenRequests > 2 {", "two open requests accepted"),
+    ("C05", "validate_idempotent", S, "config.go", "Config) Validate", "if c.Producer.RequiredAcks != WaitForAll {", "if c.Producer.RequiredAcks == NoResponse {", "weaker acks requirement"),
+    ("C05", "validate_idempotent", S, "config.go", "Config) Validate", "if !c.Version.IsAtLeast(V0_11_0_0) {\n\t\t\treturn ConfigurationError(\"Idempotent", "if !c.Version.IsAtLeast(V0_10_0_0) {\n\t\t\treturn ConfigurationError(\"Idempotent", "older version accepted"),
+    ("C05", "validate_idempotent", H, "config.go", "Config) Validate", "if c.Net.MaxOpenRequests > 1 {", "if 1 < c.Net.MaxOpenRequests {", "mirrored comparison"),
+    # ---------------------------------------------------------------- C06
+    ("C06", "close_final_flush", S, "offset_manager.go", "offsetManager) Close", "attempt <= om.conf.Consumer.Offsets.Retry.Max", "attempt < om.conf.Consumer.Offsets.Retry.Max", "one attempt fewer"),
+    ("C06", "close_final_flush", S, "offset_manager.go", "offsetManager) Close", "if om.releasePOMs(false) == 0 {", "if om.releasePOMs(false) != 0 {", "flipped comparison"),
+    ("C06", "close_final_flush", S, "offset_manager.go", "offsetManager) Close", "\t\t\t\tom.flushToBroker()\n", "", "no flush"),
+    ("C06", "close_final_flush", H, "offset_manager.go", "offsetManager) Close", "if om.releasePOMs(false) == 0 {", "if 0 == om.releasePOMs(false) {", "mirrored comparison"),
+    ("C06", "add_block", S, "offset_commit_request.go", "AddBlock", "\tif r.blocks == nil {\n\t\tr.blocks = make(map[string]map[int32]*offsetCommitRequestBlock)\n\t}\n\n", "", "dropped nil test of the outer map"),
+    ("C06", "add_block", S, "offset_commit_request.go", "AddBlock", "if r.blocks[topic] == nil {", "if r.blocks[topic] != nil {", "flipped nil test"),
+    ("C06", "add_block", S, "offset_commit_request.go", "AddBlock", "&offsetCommitRequestBlock{offset, timestamp, metadata}", "&offsetCommitRequestBlock{timestamp, offset, metadata}", "swapped fields"),
+    ("C06", "add_block", H, "offset_commit_request.go", "AddBlock", "if r.blocks == nil {", "if (r.blocks == nil) { // first block", "parentheses and a comment"),
+    # ---------------------------------------------------------------- C07
+    ("C07", "claim_start", S, "consumer_group.go", "newConsumerGroupClaim", "offset = sess.parent.config.Consumer.Offsets.Initial", "offset = 0", "fallback offset changed"),
+    ("C07", "claim_start", S, "consumer_group.go", "newConsumerGroupClaim", "if err == ErrOffsetOutOfRange {", "if err == ErrUnknownTopicOrPartition {", "other error triggers the fallback"),
+    ("C07", "claim_start", S, "consumer_group.go", "newConsumerGroupClaim", "\tif err != nil {\n\t\treturn nil, err\n\t}\n", "\tif err != nil {\n\t\treturn nil, nil\n\t}\n", "error swallowed"),
+    ("C07", "claim_start", H, "consumer_group.go", "newConsumerGroupClaim", "if err == ErrOffsetOutOfRange {", "if ErrOffsetOutOfRange == err {", "mirrored comparison"),
+    # ---------------------------------------------------------------- C03
+    ("C03", "parse_records", S, "consumer.go", "parseRecords", "if offset < child.offset {", "if offset <= child.offset {", "comparison < to <="),
+    ("C03", "parse_records", S, "consumer.go", "parseRecords", "child.offset = offset + 1", "child.offset = offset", "next offset not advanced"),
+    ("C03", "parse_records", S, "consumer.go", "parseRecords", "\tif len(messages) == 0 {\n\t\tchild.offset++\n\t}\n", "", "empty batch no longer skipped"),
+    ("C03", "parse_records", H, "consumer.go", "parseRecords", "if offset < child.offset {", "if child.offset > offset {", "mirrored comparison"),
+    ("C03", "parse_messages_inner", S, "consumer.go", "parseMessages", "if msg.Msg.Version >= 1 {", "if msg.Msg.Version >= 2 {", "changed constant"),
+    ("C03", "parse_messages_inner", S, "consumer.go", "parseMessages", "offset += baseOffset", "offset -= baseOffset", "+= to -="),
+    ("C03", "parse_messages_inner", S, "consumer.go", "parseMessages", "if offset < child.offset {", "if offset <= child.offset {", "comparison < to <="),
+    ("C03", "parse_messages_inner", H, "consumer.go", "parseMessages", "if offset < child.offset {", "if !(offset >= child.offset) {", "< written as !>="),
+    # ---------------------------------------------------------------- C11
+    ("C11", "consume_aborted", S, "consumer.go", "parseResponse", "if txn.FirstOffset > records.RecordBatch.LastOffset() {", "if txn.FirstOffset >= records.RecordBatch.LastOffset() {", "comparison > to >="),
+    ("C11", "consume_aborted", S, "consumer.go", "parseResponse", "\t\t\t\tabortedTransactions = abortedTransactions[1:]\n", "", "aborted transaction not popped"),
+    ("C11", "consume_aborted", S, "consumer.go", "parseResponse", "LastOffset() {\n\t\t\t\t\tbreak", "LastOffset() {\n\t\t\t\t\tcontinue", "break to continue"),
+    ("C11", "consume_aborted", H, "consumer.go", "parseResponse", "if txn.FirstOffset > records.RecordBatch.LastOffset() {", "if records.RecordBatch.LastOffset() < txn.FirstOffset {", "mirrored comparison"),
+    ("C11", "batch_verdict", S, "consumer.go", "parseResponse", "controlRecord.Type == ControlRecordAbort", "controlRecord.Type == ControlRecordCommit", "other control type"),
+    ("C11", "batch_verdict", S, "consumer.go", "parseResponse", "records.RecordBatch.IsTransactional && isAborted", "records.RecordBatch.IsTransactional || isAborted", "&& to ||"),
+    ("C11", "batch_verdict", S, "consumer.go", "parseResponse", "if child.conf.Consumer.IsolationLevel == ReadCommitted {\n\t\t\t\t\treturn nil, err", "if child.conf.Consumer.IsolationLevel == ReadUncommitted {\n\t\t\t\t\treturn nil, err", "isolation levels swapped"),
+    ("C11", "batch_verdict", H, "consumer.go", "parseResponse", "records.RecordBatch.IsTransactional && isAborted", "isAborted && records.RecordBatch.IsTransactional", "swapped conjuncts"),
+    ("C11", "keep_records", S, "fetch_response.go", "FetchResponseBlock) decode", "if n > 0 || (partial && len(b.RecordsSet) == 0) {", "if n > 0 || partial {", "every partial set kept"),
+    ("C11", "keep_records", S, "fetch_response.go", "FetchResponseBlock) decode", "\t\t\tb.RecordsSet = append(b.RecordsSet, records)\n", "", "records not kept"),
+    ("C11", "keep_records", S, "fetch_response.go", "FetchResponseBlock) decode", "if b.Records == nil {", "if b.Records != nil {", "flipped nil test"),
+    ("C11", "keep_records", H, "fetch_response.go", "FetchResponseBlock) decode", "if b.Records == nil {", "if (b.Records == nil) { // first", "parentheses and a comment"),
+    ("C11", "aborted_less", S, "fetch_response.go", "getAbortedTransactions", "at[i].FirstOffset < at[j].FirstOffset", "at[i].FirstOffset > at[j].FirstOffset", "descending order"),
+    ("C11", "aborted_less", S, "fetch_response.go", "getAbortedTransactions", "at[i].FirstOffset < at[j].FirstOffset", "at[i].FirstOffset <= at[j].FirstOffset", "not a strict order"),
+    ("C11", "aborted_less", H, "fetch_response.go", "getAbortedTransactions", "at[i].FirstOffset < at[j].FirstOffset", "at[j].FirstOffset > at[i].FirstOffset", "mirrored comparison"),
+    # ---------------------------------------------------------------- C15
+    ("C15", "update_broker", S, "client.go", "updateBroker", "if client.brokers[broker.ID()] == nil { // add new broker", "if client.brokers[broker.ID()] != nil { // add new broker", "flipped nil test"),
+    ("C15", "update_broker", S, "client.go", "updateBroker", "broker.Addr() != client.brokers[broker.ID()].Addr()", "broker.Addr() == client.brokers[broker.ID()].Addr()", "flipped comparison"),
+    ("C15", "update_broker", S, "client.go", "updateBroker", "; !exist {", "; exist {", "sweep condition flipped"),
+    ("C15", "update_broker", S, "client.go", "updateBroker", "\t\t\tdelete(client.brokers, id)\n", "", "stale broker kept"),
+    ("C15", "update_broker", H, "client.go", "updateBroker", "broker.Addr() != client.brokers[broker.ID()].Addr()", "client.brokers[broker.ID()].Addr() != broker.Addr()", "mirrored string comparison"),
+    # ---------------------------------------------------------------- C19
+    ("C19", "delete_topic_attempt", S, "admin.go", "DeleteTopic", "if topicErr == ErrNotController {", "if topicErr == ErrNotLeaderForPartition {", "other constant"),
+    ("C19", "delete_topic_attempt", S, "admin.go", "DeleteTopic", "return ErrIncompleteResponse", "return nil", "missing entry accepted"),
+    ("C19", "delete_topic_attempt", H, "admin.go", "DeleteTopic", "if topicErr == ErrNotController {", "if ErrNotController == topicErr {", "mirrored comparison"),
+    ("C19", "create_topic_attempt", S, "admin.go", "CreateTopic", "if topicErr.Err == ErrNotController {", "if topicErr.Err != ErrNotController {", "flipped comparison"),
+    ("C19", "create_topic_attempt", S, "admin.go", "CreateTopic", "return ErrIncompleteResponse", "return nil", "missing entry accepted"),
+    ("C19", "create_topic_attempt", H, "admin.go", "CreateTopic", "if topicErr.Err != ErrNoError {", "if ErrNoError != topicErr.Err {", "mirrored comparison"),
+    ("C19", "create_partitions_attempt", S, "admin.go", "CreatePartitions", "if topicErr.Err != ErrNoError {", "if topicErr.Err == ErrNotController {", "only NOT_CONTROLLER reported"),
+    ("C19", "create_partitions_attempt", S, "admin.go", "CreatePartitions", "\t\t\t\t_, _ = ca.refreshController()\n", "", "controller not refreshed"),
+    ("C19", "create_partitions_attempt", H, "admin.go", "CreatePartitions", "if topicErr.Err == ErrNotController {", "if ErrNotController == topicErr.Err {", "mirrored comparison"),
+    ("C19", "describe_groups_lookup", S, "admin.go", "DescribeConsumerGroups", "\t\tif err != nil {\n\t\t\treturn nil, err\n\t\t}\n\t\tgroupsPerBroker", "\t\tif err != nil {\n\t\t\treturn nil, nil\n\t\t}\n\t\tgroupsPerBroker", "lookup error swallowed"),
+    ("C19", "describe_groups_lookup", S, "admin.go", "DescribeConsumerGroups", "\t\tif err != nil {\n#0", "\t\tif err == nil {\n", "flipped nil test"),
+    ("C19", "describe_groups_lookup", H, "admin.go", "DescribeConsumerGroups", "\t\tif err != nil {\n#0", "\t\tif nil != err {\n", "mirrored nil test"),
+    ("C19", "describe_groups_collect", S, "admin.go", "DescribeConsumerGroups", "result = append(result, response.Groups...)", "result = append(response.Groups, result...)", "descriptions collected in reverse order"),
+    ("C19", "describe_groups_collect", S, "admin.go", "DescribeConsumerGroups", "\t\t\treturn nil, err\n\t\t}\n\n\t\tresult = append", "\t\t\treturn result, err\n\t\t}\n\n\t\tresult = append", "partial result returned with the error"),
+    ("C19", "describe_groups_collect", H, "admin.go", "DescribeConsumerGroups", "\t\tif err != nil {\n#1", "\t\tif nil != err {\n", "mirrored nil test"),
+    # ---------------------------------------------------------------- C20 (package mocks)
+    ("C20", "sync_send_message", S, "mocks/sync_producer.go", "SendMessage", "\t\t\tsp.lastOffset++\n", "\t\t\tsp.lastOffset += 2\n", "offset step changed"),
+    ("C20", "sync_send_message", S, "mocks/sync_producer.go", "SendMessage", "return 0, msg.Offset, nil", "return 0, 0, nil", "offset not returned"),
+    ("C20", "sync_send_message", S, "mocks/sync_producer.go", "SendMessage", "if expectation.Result == errProduceSuccess {", "if expectation.Result != errProduceSuccess {", "flipped comparison"),
+    ("C20", "sync_send_message", H, "mocks/sync_producer.go", "SendMessage", "if expectation.Result == errProduceSuccess {", "if errProduceSuccess == expectation.Result {", "mirrored comparison"),
+    ("C20", "sync_send_messages", S, "mocks/sync_producer.go", "SendMessages", "if len(sp.expectations) >= len(msgs) {", "if len(sp.expectations) > len(msgs) {", "comparison >= to >"),
+    ("C20", "sync_send_messages", S, "mocks/sync_producer.go", "SendMessages", "\t\tsp.expectations = sp.expectations[len(msgs):]\n", "", "expectations not consumed"),
+    ("C20", "sync_send_messages", S, "mocks/sync_producer.go", "SendMessages", "\t\t\tsp.lastOffset++\n", "", "offsets not advanced"),
+    ("C20", "sync_send_messages", H, "mocks/sync_producer.go", "SendMessages", "if expectation.Result != errProduceSuccess {", "if errProduceSuccess != expectation.Result {", "mirrored comparison"),
+    ("C20", "consume_partition", S, "mocks/consumer.go", "ConsumePartition", "pc.offset != AnyOffset && pc.offset != offset", "pc.offset != AnyOffset || pc.offset != offset", "&& to ||"),
+    ("C20", "consume_partition", S, "mocks/consumer.go", "ConsumePartition", "\tpc.consumed = true\n", "", "double consumption allowed"),
+    ("C20", "consume_partition", S, "mocks/consumer.go", "ConsumePartition", "if pc.consumed {", "if !pc.consumed {", "flipped test"),
+    ("C20", "consume_partition", H, "mocks/consumer.go", "ConsumePartition", "pc.offset != AnyOffset && pc.offset != offset", "pc.offset != offset && pc.offset != AnyOffset", "swapped conjuncts"),
+
 ]
 
 
@@ -215,7 +347,7 @@ def worker(wt, index, nworkers, result_file):
             results.append(r)
             continue
         try:
-            rc, out = vlib.sh(["go", "build", "."], cwd=wt, timeout=600)
+            rc, out = vlib.sh(["go", "build", ".", "./mocks"], cwd=wt, timeout=600)
             if rc != 0:
                 r["outcome"], r["pass"] = "DOES-NOT-COMPILE: " + out[-300:], False
             else:
